@@ -334,12 +334,18 @@ func (c *Ctx) streamChain(rule string) {
 					bp = p
 				}
 			}
-			if bp != nil {
+			if bp != nil || f.Signature.Recv() != nil {
 				for _, ci := range flow.CallInstrs(f) {
 					carries := false
 					for _, a := range ci.Common().Args {
-						if derivesFromSliceParam(a, bp) {
+						if bp != nil && derivesFromSliceParam(a, bp) {
 							carries = true
+						}
+						// a function that serialises the message itself: the bytes it hands to a writer
+						if bp == nil && isByteSlice(a.Type()) {
+							if g := flow.StaticCallee(ci); g != nil && c.P.IsLibrary(g) && len(c.writeLoopFns(g, 0)) > 0 {
+								carries = true
+							}
 						}
 					}
 					if !carries {
